@@ -41,6 +41,7 @@ func (s *IterVisitor) All(root Node) iter.Seq[Node] {
 }
 
 func (s *IterVisitor) send(v Node) bool {
+	verifBeforeSend(s, v)
 	s.nodeC <- v
 	return true
 }
